@@ -55,20 +55,33 @@ Section Models.
   }.
 
   (* memory: map store -> map id -> entry{model, latest bool}.  Exactly one entry carries the
-     flag: the one written last.  Represented as the insertion-ordered entries plus the id of
-     the flagged entry. *)
+     flag: the one written last.  A Go map has no order; it is represented by its entries,
+     most recently inserted first, plus the id of the flagged entry. *)
   Record mem_store := mkMemStore { ms_entries : list model; ms_latest : option bytes }.
   Definition mmem_state := list (bytes * mem_store).
 
+  Fixpoint mremove (id : bytes) (l : list model) : list model :=
+    match l with
+    | [] => []
+    | m :: r => if beqb (fst m) id then mremove id r else m :: mremove id r
+    end.
+
   Definition mmem_write (st : mmem_state) (s id : bytes) (b : body) : option mmem_state :=
     let old := match alookup beqb s st with Some ms => ms_entries ms | None => [] end in
-    Some (aupsert beqb s (mkMemStore (aupsert beqb id b old) (Some id)) st).
+    Some (aupsert beqb s (mkMemStore ((id, b) :: mremove id old) (Some id)) st).
+
+  (* findAuthorizationModelByID: an EMPTY id means "the entry carrying the latest flag" *)
+  Definition mmem_find (ms : mem_store) (id : bytes) : option body :=
+    match id with
+    | [] => match ms_latest ms with Some l => massoc l (ms_entries ms) | None => None end
+    | _ => massoc id (ms_entries ms)
+    end.
 
   Definition mmem_read (st : mmem_state) (s id : bytes) : option body :=
     match alookup beqb s st with
     | None => None
     | Some ms =>
-      match massoc id (ms_entries ms) with
+      match mmem_find ms id with
       | Some b => if N.eqb (ntypes b) 0 then None else Some b   (* no type definitions: ErrNotFound *)
       | None => None
       end
@@ -93,7 +106,8 @@ Section Models.
   Definition mem_mbackend : mbackend :=
     mkMBackend mmem_state [] mmem_write mmem_read mmem_latest mmem_list.
 
-  (* sqlite: rows of authorization_model, primary key (store, authorization_model_id) *)
+  (* sqlite: rows of authorization_model, primary key (store, authorization_model_id); a table has
+     no order: most recently inserted row first *)
   Definition msql_state := list (key * body).
 
   Definition rows_of (st : msql_state) (s : bytes) : list model :=
@@ -103,7 +117,7 @@ Section Models.
     if N.eqb (ntypes b) 0 then Some st                         (* len(typeDefinitions) < 1: return nil *)
     else match alookup key_eqb (s, id) st with
          | Some _ => None                                      (* unique constraint: ErrCollision *)
-         | None => Some (st ++ [((s, id), b)])
+         | None => Some (((s, id), b) :: st)
          end.
 
   Definition msql_read (st : msql_state) (s id : bytes) : option body := alookup key_eqb (s, id) st.
@@ -273,6 +287,48 @@ Section Models.
     | _ :: r => write_ids r
     end.
 
+  (* The stateless specification of every output (no caches, no backend): *)
+  Definition spec_out (rp : list mop) (o : mop) : mout :=
+    match o with
+    | MWrite s b id =>
+      if negb (is_ulid s && wf b) then MErr MInvalidArgument
+      else if max_types <? ntypes b then MErr MExceeded
+      else if max_model_size <? size b then MErr MExceeded
+      else if negb (valid b) then MErr MInvalidModel
+      else MWritten id
+    | MRead s id =>
+      if negb (is_ulid s && is_ulid id) then MErr MInvalidArgument
+      else match massoc id (spec_rev rp s) with
+           | Some b => MModel id b
+           | None => MErr MModelNotFound
+           end
+    | MList s =>
+      if negb (is_ulid s) then MErr MInvalidArgument else MIds (map fst (spec_rev rp s))
+    | MResolve s ido =>
+      if negb (is_ulid s && match ido with Some id => is_ulid id | None => true end)
+      then MErr MInvalidArgument
+      else match ido with
+           | Some id =>
+             if negb (ulid_parse_ok id) then MErr MModelNotFound
+             else match massoc id (spec_rev rp s) with
+                  | Some b => MResolved id b
+                  | None => MErr MModelNotFound
+                  end
+           | None =>
+             match spec_rev rp s with
+             | [] => MErr MLatestNotFound
+             | (id, b) :: _ => MResolved id b        (* the most recently written model *)
+             end
+           end
+    end.
+
+  Fixpoint spec_trace_from (rp : list mop) (h : list mop) : list (mop * mout) :=
+    match h with
+    | [] => []
+    | o :: r => (o, spec_out rp o) :: spec_trace_from (o :: rp) r
+    end.
+  Definition spec_trace (h : list mop) : list (mop * mout) := spec_trace_from [] h.
+
   (* The property as a predicate on an observed trace (most recent first prefix [rp] of
      operations already seen, with their outputs) — evaluated by the oracle on the
      implementation's observations and proved of the model's trace. *)
@@ -284,6 +340,13 @@ Section Models.
     end.
 
   Variable body_eqb : body -> body -> bool.
+
+  Fixpoint ids_eqb (a b : list bytes) : bool :=
+    match a, b with
+    | [], [] => true
+    | x :: a', y :: b' => beqb x y && ids_eqb a' b'
+    | _, _ => false
+    end.
 
   Definition step_ok (rp : list (mop * mout)) (o : mop) (out : mout) : bool :=
     match o, out with
@@ -297,9 +360,7 @@ Section Models.
       beqb id id' && match massoc id (obs_content rp s) with Some b' => body_eqb b b' | None => false end
     | MRead s id, MErr MModelNotFound => match massoc id (obs_content rp s) with Some _ => false | None => true end
     | MRead _ _, MErr _ => true
-    | MList s, MIds ids => (fix eq (a b : list bytes) := match a, b with
-                            | [], [] => true | x :: a', y :: b' => beqb x y && eq a' b' | _, _ => false end)
-                           ids (map fst (obs_content rp s))
+    | MList s, MIds ids => ids_eqb ids (map fst (obs_content rp s))
     | MList _, MErr _ => true
     (* a request without model id is served by the most recently written model *)
     | MResolve s None, MResolved id b =>
@@ -307,7 +368,8 @@ Section Models.
     | MResolve s None, MErr MLatestNotFound => match obs_content rp s with [] => true | _ => false end
     | MResolve s (Some id), MResolved id' b =>
       beqb id id' && match massoc id (obs_content rp s) with Some b' => body_eqb b b' | None => false end
-    | MResolve s (Some id), MErr MModelNotFound => match massoc id (obs_content rp s) with Some _ => false | None => true end
+    | MResolve s (Some id), MErr MModelNotFound =>
+      negb (ulid_parse_ok id) || match massoc id (obs_content rp s) with Some _ => false | None => true end
     | MResolve _ _, MErr MInvalidArgument => true
     | _, _ => false
     end.
@@ -396,3 +458,68 @@ Section Models.
   (* trigger flag: some request joined a call that was in flight *)
   Definition some_joined (st : cstate) : bool := existsb (fun d => snd d) (c_done st).
 End Models.
+
+(* ------------------------------------------------------------------------------------------ *)
+(* Datastore-interface histories (storage.AuthorizationModelBackend): ids are supplied by the   *)
+(* caller, nothing is validated.                                                                *)
+
+Section Raw.
+  Variable body : Type.
+
+  Inductive bop :=
+  | BWrite (s id : bytes) (b : body)
+  | BRead (s id : bytes)
+  | BLatest (s : bytes)
+  | BList (s : bytes).
+
+  Inductive bout :=
+  | BOk
+  | BErr              (* any error other than not-found (sqlite: unique constraint) *)
+  | BNotFound
+  | BModel (id : bytes) (b : body)
+  | BIds (ids : list bytes).
+
+  Definition bstep (B : mbackend body) (st : mb_state body B) (o : bop) : mb_state body B * bout :=
+    match o with
+    | BWrite s id b => match mb_write body B st s id b with Some st' => (st', BOk) | None => (st, BErr) end
+    | BRead s id => (st, match mb_read body B st s id with Some b => BModel id b | None => BNotFound end)
+    | BLatest s => (st, match mb_latest body B st s with Some (id, b) => BModel id b | None => BNotFound end)
+    | BList s => (st, BIds (mb_list body B st s))
+    end.
+
+  Fixpoint btrace (B : mbackend body) (st : mb_state body B) (h : list bop) : list (bop * bout) :=
+    match h with
+    | [] => []
+    | o :: r => let (st', out) := bstep B st o in (o, out) :: btrace B st' r
+    end.
+End Raw.
+
+(* ------------------------------------------------------------------------------------------ *)
+(* The instance the oracle runs: the request content with the attributes the driver observes    *)
+
+Record tbody := mkTBody {
+  tb_enc : bytes;       (* canonical encoding of schema version + type definitions + conditions *)
+  tb_wf : bool;         (* req.Validate() *)
+  tb_valid : bool;      (* typesystem.NewAndValidate, computed by the driver with the same function *)
+  tb_ntypes : N;
+  tb_size : N;
+  tb_variant : N        (* which of the probe variants the content is (decides the Check answers) *)
+}.
+
+Definition tbody_eqb (a b : tbody) : bool := beqb (tb_enc a) (tb_enc b).
+
+Definition t_mem := mem_mbackend tbody tb_ntypes.
+Definition t_sql := sql_mbackend tbody tb_ntypes.
+Definition t_mem_trace (h : list (mop tbody)) :=
+  mtrace tbody tb_valid tb_wf tb_ntypes tb_size t_mem (mserver_init tbody t_mem) h.
+Definition t_sql_trace (h : list (mop tbody)) :=
+  mtrace tbody tb_valid tb_wf tb_ntypes tb_size t_sql (mserver_init tbody t_sql) h.
+Definition t_spec_trace (h : list (mop tbody)) := spec_trace tbody tb_valid tb_wf tb_ntypes tb_size h.
+Definition t_trace_ok (t : list (mop tbody * mout tbody)) := mtrace_ok tbody tb_valid tb_wf tbody_eqb t.
+Definition t_ids_increasing (h : list (mop tbody)) := ids_increasing tbody h.
+Definition t_mem_btrace (h : list (bop tbody)) := btrace tbody t_mem (mb_init tbody t_mem) h.
+Definition t_sql_btrace (h : list (bop tbody)) := btrace tbody t_sql (mb_init tbody t_sql) h.
+Definition t_crun (h : list (cev tbody)) := crun tbody h.
+Definition t_all_fresh (st : cstate tbody) := all_fresh tbody st.
+Definition t_leaders_fresh (st : cstate tbody) := leaders_fresh tbody st.
+Definition t_some_joined (st : cstate tbody) := some_joined tbody st.
